@@ -54,6 +54,61 @@ func runC40(c *Ctx) {
 				rets = append(rets, b)
 			}
 		}
+		// recorder helpers: methods on the result that set Valid=false whenever their error argument is non-nil
+		recorderArg := func(ci ssa.CallInstruction) (errArg ssa.Value, ok bool) {
+			h := samePkgHelper(fn, ci.Common())
+			if h == nil || h.Parent() != nil {
+				return nil, false
+			}
+			for i, q := range h.Params {
+				if !isErrorType(q.Type()) || i >= len(ci.Common().Args) {
+					continue
+				}
+				nonNil := fmt.Sprintf("p%d != nil", i)
+				good := false
+				for _, ef := range edgeFacts(h) {
+					if ef.Fact != nonNil {
+						continue
+					}
+					start := ef.From.Succs[ef.Succ]
+					hasFalse := func(b *ssa.BasicBlock) bool {
+						for _, in := range b.Instrs {
+							if st, isSt := in.(*ssa.Store); isSt {
+								if fa, isFA := st.Addr.(*ssa.FieldAddr); isFA && fieldName(fa.X.Type(), fa.Field) == "Valid" && desc(st.Val) == "false" && trace(fa.X) == "p0" {
+									return true
+								}
+							}
+						}
+						return false
+					}
+					good = true
+					if !hasFalse(start) {
+						reach := reachFromAvoiding([]*ssa.BasicBlock{start}, func(from *ssa.BasicBlock, succ int) bool { return hasFalse(from) })
+						for b := range reach {
+							if _, isR := b.Instrs[len(b.Instrs)-1].(*ssa.Return); isR && !hasFalse(b) {
+								good = false
+							}
+						}
+					}
+				}
+				if good {
+					return ci.Common().Args[i], true
+				}
+			}
+			return nil, false
+		}
+		recorderBlocks := map[*ssa.BasicBlock][]ssa.Value{}
+		for _, ci := range allCalls(fn) {
+			if _, isGo := ci.(*ssa.Go); isGo {
+				continue
+			}
+			if _, isDefer := ci.(*ssa.Defer); isDefer {
+				continue
+			}
+			if a, ok := recorderArg(ci); ok {
+				recorderBlocks[ci.Block()] = append(recorderBlocks[ci.Block()], a)
+			}
+		}
 		isFalseBlock := func(b *ssa.BasicBlock) bool {
 			for _, s := range falseStores {
 				if s.Block() == b {
@@ -136,13 +191,34 @@ func runC40(c *Ctx) {
 					errSucc = 1
 				}
 			}
+			// the check's error value, as the call itself or its error component
+			isErrOfCall := func(v ssa.Value) bool {
+				if ex, ok := v.(*ssa.Extract); ok {
+					return ex.Tuple == ssa.Value(call) && isErrorType(ex.Type())
+				}
+				return v == ssa.Value(call)
+			}
+			recordedIn := func(b *ssa.BasicBlock) bool {
+				for _, a := range recorderBlocks[b] {
+					if isErrOfCall(a) {
+						return true
+					}
+				}
+				return false
+			}
 			if errFrom == nil {
+				// result.recordFailure(v.validateX(input)): handed to a recorder unconditionally, right where it is made
+				if recordedIn(call.Block()) {
+					c.Ok("header-checks-complete", ck+":error-flags-invalid", call.Pos(), "the result of "+name+" is handed to a recorder that marks the result invalid on a non-nil error")
+					continue
+				}
 				c.Bad("header-checks-complete", ck+":error-flags-invalid", call.Pos(), "the result of %s is not tested", name)
 				continue
 			}
 			start := errFrom.Succs[errSucc]
-			reach := reachFromAvoiding([]*ssa.BasicBlock{start}, func(from *ssa.BasicBlock, succ int) bool { return isFalseBlock(from) })
-			bad := !isFalseBlock(start)
+			setsFalse := func(b *ssa.BasicBlock) bool { return isFalseBlock(b) || recordedIn(b) }
+			reach := reachFromAvoiding([]*ssa.BasicBlock{start}, func(from *ssa.BasicBlock, succ int) bool { return setsFalse(from) })
+			bad := !setsFalse(start)
 			if bad {
 				bad = false
 				for _, r := range rets {
@@ -234,7 +310,7 @@ func (c *Ctx) checkKesWindow(fn *ssa.Function, cur, op, max string) {
 			if s == 1 {
 				o = negOp(o)
 			}
-			l, r, ops := trace(bo.X), trace(bo.Y), o.String()
+			l, r, ops := traceIP(fn, bo.X), traceIP(fn, bo.Y), o.String()
 			// normalise so that the "current"-side expression is on the left
 			if strings.Contains(r, cur) && !strings.Contains(l, cur) {
 				l, r, ops = r, l, swapOpStr(ops)
@@ -249,6 +325,81 @@ func (c *Ctx) checkKesWindow(fn *ssa.Function, cur, op, max string) {
 				upper = append(upper, edge{b, s})
 			case (l == diff && r == max && ops == "<=") || (l == cur && (r == sum || r == sum2) && ops == "<="):
 				looseUpper = append(looseUpper, edge{b, s})
+			}
+		}
+	}
+	// the lower bound may be established in a helper that computes current − certificate period and fails when the
+	// certificate is from the future: then the helper's nil-error edge in fn stands for it
+	for _, ci := range allCalls(fn) {
+		h := samePkgHelper(fn, ci.Common())
+		if h == nil || errorResultIndex(h) < 0 || ci.Value() == nil {
+			continue
+		}
+		var hl []edge
+		for _, b := range h.Blocks {
+			iff, ok := b.Instrs[len(b.Instrs)-1].(*ssa.If)
+			if !ok {
+				continue
+			}
+			bo, ok := iff.Cond.(*ssa.BinOp)
+			if !ok {
+				continue
+			}
+			for s2 := 0; s2 < 2; s2++ {
+				o := bo.Op
+				if s2 == 1 {
+					o = negOp(o)
+				}
+				l, r, ops := trace(bo.X), trace(bo.Y), o.String()
+				if strings.Contains(r, cur) && !strings.Contains(l, cur) {
+					l, r, ops = r, l, swapOpStr(ops)
+				}
+				if l == cur && r == op && ops == ">=" {
+					hl = append(hl, edge{b, s2})
+				}
+			}
+		}
+		if len(hl) == 0 {
+			continue
+		}
+		hreach, _ := reachAvoiding(h, func(from *ssa.BasicBlock, succ int) bool {
+			for _, e := range hl {
+				if e.b == from && e.s == succ {
+					return true
+				}
+			}
+			return false
+		})
+		all := true
+		for _, r := range successReturns(h) {
+			if hreach[r.Block()] {
+				all = false
+			}
+		}
+		if !all {
+			continue
+		}
+		ev := ssa.Value(ci.Value())
+		for _, b := range fn.Blocks {
+			iff, ok := b.Instrs[len(b.Instrs)-1].(*ssa.If)
+			if !ok {
+				continue
+			}
+			bo, ok := iff.Cond.(*ssa.BinOp)
+			if !ok || !isNilConst(bo.Y) {
+				continue
+			}
+			x := bo.X
+			if ex, isEx := x.(*ssa.Extract); isEx {
+				x = ex.Tuple
+			}
+			if x != ev {
+				continue
+			}
+			if bo.Op == token.EQL {
+				lower = append(lower, edge{b, 0})
+			} else if bo.Op == token.NEQ {
+				lower = append(lower, edge{b, 1})
 			}
 		}
 	}
@@ -300,7 +451,7 @@ func (c *Ctx) checkVerifyCall(fn *ssa.Function, calleeSuffix string, argsOK func
 	}
 	var args []string
 	for _, a := range call.Call.Args {
-		args = append(args, trace(a))
+		args = append(args, traceIP(fn, a))
 	}
 	c.Check(argsOK(args), rule, key+":args", call.Pos(), wantDesc, "the verification is "+calleeSuffix+"("+shortArg(strings.Join(args, ", "))+"), expected "+wantDesc)
 	// success requires the call to be true: either returned directly, or its false edge never reaches a success return
